@@ -228,6 +228,14 @@ def search(rec, ctx):
             r = "".join(rng.choice(lex.PY_OPS) for _ in range(3))
             check(rec, {"src": f"a{r}b\n", "stream": "g6-oprun3", "need_valid": True, "run": r})
 
+    def deep(levels, unit, body="pass"):
+        return "".join(unit * i + "if a:\n" for i in range(levels)) + unit * levels + body + "\n"
+
+    for levels in ctx.shard([50, 90, 97, 98, 99, 100, 101, 120]):
+        for unit in (" ", "\t", "  "):
+            check(rec, {"src": deep(levels, unit), "stream": "g6-indentation-depth"})
+            check(rec, {"src": deep(levels, unit) + "x = 1\n", "stream": "g6-indentation-depth"})
+
     # ---- generated -------------------------------------------------------------------------
     def indent(rnd):
         check(rec, {"src": lex.indentation_program(rnd), "stream": "g6-indentation"})
